@@ -332,8 +332,43 @@ pub fn run_program(text: &str, stdlib: bool, fuel: u64, rec: Option<Rc<RefCell<R
     res
 }
 
+/// `hide(ty, e)` is the identity in the specification (Lang.tla: Ev of "hide" is Ev of its operand); it only
+/// keeps the implementation's folder from seeing the value. The constant twin of a program has every hide removed.
+fn unhide(v: &Value) -> Value {
+    match v {
+        Value::Object(o) if o.get("k").and_then(Value::as_str) == Some("hide") => unhide(&o["e"]),
+        Value::Object(o) => Value::Object(o.iter().map(|(k, x)| (k.clone(), unhide(x))).collect()),
+        Value::Array(a) => Value::Array(a.iter().map(unhide).collect()),
+        x => x.clone(),
+    }
+}
+fn has_hide(v: &Value) -> bool {
+    match v {
+        Value::Object(o) => o.get("k").and_then(Value::as_str) == Some("hide") || o.values().any(has_hide),
+        Value::Array(a) => a.iter().any(has_hide),
+        _ => false,
+    }
+}
+
 pub fn run(args: &[String]) -> Value {
-    let cases = read_ndjson(&args[0]);
+    let mut cases = read_ndjson(&args[0]);
+    // constant twins: the same program with the hidden operands visible to the folder; the specification predicts
+    // the same outcome (suites with twin groups of their own, and deliberately ill-typed programs, are left alone)
+    if std::env::var("VERIF_NO_CONST_TWINS").is_err() {
+        let mut twins = vec![];
+        for case in &cases {
+            let grouped = case["group"].as_str().map(|g| !g.is_empty()).unwrap_or(false);
+            if grouped || case["negative"].as_bool().unwrap_or(false) || !has_hide(&case["prog"]) {
+                continue;
+            }
+            let mut t = case.clone();
+            t["prog"] = unhide(&case["prog"]);
+            t["id"] = json!(format!("{}#const", case["id"].as_str().unwrap_or("?")));
+            t["const_twin"] = json!(true);
+            twins.push(t);
+        }
+        cases.extend(twins);
+    }
     let mut events_out = args.get(1).map(|p| std::io::BufWriter::new(std::fs::File::create(p).unwrap()));
     let fuel: u64 = std::env::var("VERIF_FUEL").ok().and_then(|s| s.parse().ok()).unwrap_or(200_000);
     let mut mm = Mismatches::new(400);
@@ -465,8 +500,18 @@ pub fn run(args: &[String]) -> Value {
                 let allowed = case["allow_parse"].as_array().map(|a| a.iter().any(|x| x.as_str() == Some(r.parse.as_str()))).unwrap_or(false);
                 // generated programs contain random constant sub-expressions; one that fails while being folded is
                 // reported by the checker as an error of that class (documented; C03 decides its totality)
-                let fold_error = suite == "gen" && ["ZeroDivision", "ZeroModulo", "OverflowShift", "IndexOutOfBounds", "NegativeLength"].contains(&r.parse.as_str());
-                if fold_error {
+                let is_fold_class = ["ZeroDivision", "ZeroModulo", "OverflowShift", "IndexOutOfBounds", "NegativeLength"].contains(&r.parse.as_str());
+                let fold_error = suite == "gen" && is_fold_class;
+                let twin = case["const_twin"].as_bool().unwrap_or(false);
+                // a constant twin may report at checking time the very error the specification predicts for the run
+                if twin && is_fold_class && exp_status == "error" && exp["v"].as_str() == Some(r.parse.as_str()) {
+                    *counts.entry("const-twin-error-reported-early".into()).or_insert(0) += 1;
+                } else if twin && fold_error {
+                    // generated programs: a failing constant sub-expression in code that is never run is still folded
+                    *counts.entry("rejected-constant-folding-error".into()).or_insert(0) += 1;
+                } else if twin {
+                    bad("consttwin", format!("the constant twin is refused ({}: {}) while the specification predicts {} for the program", r.parse, r.detail, exp_status), &mut mm);
+                } else if fold_error {
                     *counts.entry("rejected-constant-folding-error".into()).or_insert(0) += 1;
                 } else if exp_status == "rejected" || allowed {
                     *counts.entry("rejected-as-allowed".into()).or_insert(0) += 1;
@@ -476,7 +521,12 @@ pub fn run(args: &[String]) -> Value {
             }
             "error" => {
                 let allowed = case["allow_exec"].as_array().map(|a| a.iter().any(|x| x.as_str() == Some(r.detail.as_str()))).unwrap_or(false);
-                if allowed {
+                // named deviation (DESIGN 12.5): making a closure folds its body, so a failing CONSTANT sub-expression of
+                // a function body is raised when the closure is made, even if that code would never run; in the constant
+                // twin of a generated program such sub-expressions arise by chance
+                let twin_fold = case["const_twin"].as_bool().unwrap_or(false) && suite == "gen"
+                    && ["ZeroDivision", "ZeroModulo", "OverflowShift", "IndexOutOfBounds", "NegativeLength"].contains(&r.detail.as_str());
+                if allowed || twin_fold {
                     *counts.entry("exec-error-as-allowed".into()).or_insert(0) += 1;
                 } else if !(exp_status == "error" && exp["v"].as_str() == Some(r.detail.as_str())) {
                     bad("outcome", format!("run-time error {} observed", r.detail), &mut mm);
